@@ -119,8 +119,9 @@ void list_string_set(List_string *list, int index, const char *value) {
         exit(1);
     }
     
+    char *copy = strdup(value);  /* Copy new string first: value may be the old string itself */
     free(list->data[index]);  /* Free old string */
-    list->data[index] = strdup(value);  /* Copy new string */
+    list->data[index] = copy;
 }
 
 /* Get the value at the specified index */
